@@ -1584,3 +1584,65 @@ func specNextLine(fb *functionBuilder) int {
 //@   requires fb != nil && fb.fn != nil
 //@   ensures[C12] pos != nil ==> specNextLine(fb) == pos.Line
 //@   ensures len(fb.fn.Body) == old(len(fb.fn.Body))
+
+// ---------------------------------------------------------------------------
+// C21, the error types of the compiler: Path and Position hand out the path
+// and the position the error was built with (the chain from the lexer's offsets
+// to BuildError.Position in the root package has no other link).
+// ---------------------------------------------------------------------------
+
+//@ func (*SyntaxError).Path
+//@   props C21
+//@   requires e != nil
+//@   ensures result == e.path
+
+//@ func (*SyntaxError).Position
+//@   props C21
+//@   requires e != nil
+//@   ensures result.Line == e.pos.Line && result.Column == e.pos.Column && result.Start == e.pos.Start && result.End == e.pos.End
+
+//@ func (*CheckingError).Path
+//@   props C21
+//@   requires e != nil
+//@   ensures result == e.path
+
+//@ func (*CheckingError).Position
+//@   props C21
+//@   requires e != nil
+//@   ensures result.Line == e.pos.Line && result.Column == e.pos.Column && result.Start == e.pos.Start && result.End == e.pos.End
+
+//@ func (*CycleError).Path
+//@   props C21
+//@   requires e != nil
+//@   ensures result == e.path
+
+//@ func (*CycleError).Position
+//@   props C21
+//@   requires e != nil
+//@   ensures result.Line == e.pos.Line && result.Column == e.pos.Column && result.Start == e.pos.Start && result.End == e.pos.End
+
+//@ func (*GoModError).Path
+//@   props C21
+//@   requires e != nil
+//@   ensures result == e.path
+
+//@ func (*GoModError).Position
+//@   props C21
+//@   requires e != nil
+//@   ensures result.Line == e.pos.Line && result.Column == e.pos.Column && result.Start == e.pos.Start && result.End == e.pos.End
+
+//@ func (*LimitExceededError).Path
+//@   props C21
+//@   requires e != nil
+//@   ensures result == e.path
+
+//@ func (*LimitExceededError).Position
+//@   props C21
+//@   requires e != nil && e.pos != nil
+//@   ensures result.Line == e.pos.Line && result.Column == e.pos.Column && result.Start == e.pos.Start && result.End == e.pos.End
+
+// syntaxError (C21): the error carries the position it is given.
+//@ func syntaxError
+//@   props C21
+//@   requires pos != nil
+//@   ensures result != nil && result.pos.Line == pos.Line && result.pos.Column == pos.Column && result.pos.Start == pos.Start && result.pos.End == pos.End
